@@ -73,7 +73,12 @@ type frameQ struct {
 	ch chan []byte
 }
 
-func runPeer(r row) error {
+func runPeer(r row, final bool) error {
+	// a time-out is a verdict only on the final attempt (fresh pair each time, growing patience)
+	patience := 10 * time.Second
+	if final {
+		patience = 40 * time.Second
+	}
 	bases()
 	sp, ap := symTab[r.Pol], asymTab[r.Pol]
 	ck, sk := keys.Get(r.CKey), keys.Get(r.SKey)
@@ -98,10 +103,10 @@ func runPeer(r row) error {
 		return chanpair.Pass(f) // injected frames do not pass the tap; anything else is forwarded
 	}
 	ack := func() *uacp.Acknowledge {
-		return &uacp.Acknowledge{ReceiveBufSize: uint32(r.Cs), SendBufSize: uint32(r.Cs), MaxChunkCount: 8192, MaxMessageSize: 1 << 28}
+		return &uacp.Acknowledge{ReceiveBufSize: uint32(r.Cs) + 4096, SendBufSize: uint32(r.Cs), MaxChunkCount: 8192, MaxMessageSize: 1 << 28}
 	}
 	p, err := chanpair.Open(chanpair.Opts{Policy: r.Pol, Mode: r.Mode, ClientKey: r.CKey, ServerKey: r.SKey, ClientACK: ack(), ServerACK: ack(),
-		Tap: tap, NoOpen: true, NoServerLoop: !refIsClient, RequestTimeout: 20 * time.Second, ChannelID: 77, TokenID: 5})
+		Tap: tap, NoOpen: true, NoServerLoop: !refIsClient, RequestTimeout: patience + 5*time.Second, ChannelID: 77, TokenID: 5})
 	if err != nil {
 		return err
 	}
@@ -145,7 +150,10 @@ func runPeer(r row) error {
 		if err := p.Inject("c2s", opn); err != nil {
 			return err
 		}
-		f := next(10 * time.Second)
+		f := next(patience)
+		if f == nil && !final {
+			return fmt.Errorf("no answer to the OPN request in time")
+		}
 		if f == nil || string(f[:3]) != "OPN" {
 			violation(c, class, "reference-opn-request-rejected", fmt.Sprintf("gopcua server channel did not answer the OPN request built by the reference codec (got %q)", head(f)))
 			return nil
@@ -188,10 +196,13 @@ func runPeer(r row) error {
 		var got *uasc.MessageBody
 		select {
 		case got = <-w.got:
-		case <-time.After(10 * time.Second):
+		case <-time.After(patience):
+		}
+		if got == nil && !final {
+			return fmt.Errorf("nothing delivered in time")
 		}
 		if got == nil || got.Err != nil {
-			e := "nothing delivered within 10s"
+			e := "nothing delivered in time"
 			if got != nil {
 				e = got.Err.Error()
 			}
@@ -206,7 +217,10 @@ func runPeer(r row) error {
 		// ---- gopcua's answer (same body size class), opened by the reference codec
 		var cat []byte
 		for {
-			f := next(10 * time.Second)
+			f := next(patience)
+			if f == nil && !final {
+				return fmt.Errorf("no response in time")
+			}
 			if f == nil {
 				violation(c, class, "response-not-sent", "gopcua server channel did not send the response")
 				return nil
@@ -233,11 +247,11 @@ func runPeer(r row) error {
 	// ---------------- reference codec as SERVER
 	openErr := make(chan error, 1)
 	go func() {
-		ctx, cancel := context.WithTimeout(context.Background(), 15*time.Second)
+		ctx, cancel := context.WithTimeout(context.Background(), patience+10*time.Second)
 		defer cancel()
 		openErr <- p.Client.Open(ctx)
 	}()
-	f := next(10 * time.Second)
+	f := next(patience)
 	if f == nil || string(f[:3]) != "OPN" {
 		return fmt.Errorf("no OPN request from the gopcua client (got %q)", head(f))
 	}
@@ -268,6 +282,9 @@ func runPeer(r row) error {
 		return err
 	}
 	if err := <-openErr; err != nil {
+		if !final && timeoutish(err.Error()) {
+			return err
+		}
 		violation(c, class, "reference-opn-response-rejected", "gopcua client channel rejects the OPN response built by the reference codec: "+err.Error())
 		return nil
 	}
@@ -280,7 +297,7 @@ func runPeer(r row) error {
 	derr := ""
 	done := make(chan error, 1)
 	go func() {
-		ctx, cancel := context.WithTimeout(context.Background(), 15*time.Second)
+		ctx, cancel := context.WithTimeout(context.Background(), patience+10*time.Second)
 		defer cancel()
 		done <- p.Client.SendRequest(ctx, writeReq(r.N-reqBase, salt), nil, func(resp ua.Response) error {
 			if q, ok := resp.(*ua.ReadResponse); ok && len(q.Results) == 1 && q.Results[0].Value != nil {
@@ -294,7 +311,7 @@ func runPeer(r row) error {
 	var cat []byte
 	var reqID uint32
 	for {
-		f := next(10 * time.Second)
+		f := next(patience)
 		if f == nil {
 			return fmt.Errorf("gopcua client sent no request")
 		}
@@ -333,6 +350,9 @@ func runPeer(r row) error {
 		}
 	}
 	if err := <-done; err != nil {
+		if !final && timeoutish(err.Error()) {
+			return err
+		}
 		derr = "client channel: " + err.Error()
 	}
 	switch {
